@@ -414,7 +414,13 @@ fn run_k<const K: usize>(depth: usize, max_len: usize, max_plan: usize, rep: &mu
     let mut dummy = CaseOut::default();
     let ex = bfs::<K>(depth, max_len, &mut dummy, false);
     let bound = depth + 3;
-    let total = par_cases(&ex.states, |_, (t, hist)| {
+    // (cases are state numbers; the states themselves are reached through a wrapper so that the exploration does not
+    // depend on the subject type being Sync)
+    let shared = crate::report::AssertSync(&ex.states);
+    let numbers: Vec<usize> = (0..ex.states.len()).collect();
+    let total = par_cases(&numbers, |_, i| {
+        let sh = &shared;
+        let (t, hist) = &sh.0[*i];
         let mut out = CaseOut::default();
         let a = adj(t, bound);
         out.add("states", 1);
